@@ -1,0 +1,18 @@
+//go:build verif
+
+package lwk
+
+import (
+	goelectrum "github.com/checksum0/go-electrum/electrum"
+	"github.com/elementsproject/peerswap/electrum"
+)
+
+// This file is only compiled with the `verif` build tag.
+
+// VerifAcceptBlockHeight exposes acceptBlockHeight (header filter of the electrum watcher).
+func (r *electrumTxWatcher) VerifAcceptBlockHeight(h *goelectrum.SubscribeHeadersResult) (electrum.BlockHeight, bool, error) {
+	return r.acceptBlockHeight(h)
+}
+
+// VerifFail exposes fail (terminal error of the electrum watcher).
+func (r *electrumTxWatcher) VerifFail(err error) { r.fail(err) }
